@@ -227,10 +227,100 @@ mod probes {
         }
     }
 
+
+    // ------------------------------------------------------------------------------- C07
+    mod c07 {
+        use super::*;
+        use crate::data::loading::*;
+        use crate::data::TrainData;
+
+        struct ExactLen<I> { it: I }
+        impl<I: Iterator> Iterator for ExactLen<I> {
+            type Item = I::Item;
+            fn next(&mut self) -> Option<I::Item> { self.it.next() }
+            fn size_hint(&self) -> (usize, Option<usize>) { self.it.size_hint() }
+        }
+        impl<I: ExactSizeIterator> ExactSizeIterator for ExactLen<I> {}
+
+        fn source(k: usize, n: usize) -> TrainDataGenerator {
+            Box::new(ExactLen { it: (0..n).map(move |i| Ok(TrainData::new(format!("s{k}i{i}"), None))).collect::<Vec<_>>().into_iter() })
+        }
+
+        /// the statement of C07 for one configuration; runs in a thread so that non-termination is observable
+        pub fn check(lengths: Vec<usize>, strategy: &str, seed: u64) -> Result<(), String> {
+            let strat = match strategy {
+                "sequential" => GenerationStrategy::Sequential,
+                "interleaved" => GenerationStrategy::Interleaved,
+                _ => GenerationStrategy::Weighted,
+            };
+            let (tx, rx) = std::sync::mpsc::channel();
+            let ls = lengths.clone();
+            std::thread::spawn(move || {
+                let gens: Vec<TrainDataGenerator> = ls.iter().enumerate().map(|(k, n)| source(k, *n)).collect();
+                let g = match MultiTrainDataGenerator::new(gens, strat, Some(seed)) { Ok(g) => g, Err(_) => { tx.send(None).ok(); return; } };
+                let items: Vec<(String, usize)> = g.map(|(d, k)| (format!("{:?}", d.unwrap()), k)).collect();
+                tx.send(Some(items)).ok();
+            });
+            let items = match rx.recv_timeout(std::time::Duration::from_secs(5)) {
+                Ok(Some(items)) => items,
+                Ok(None) => return Ok(()), // rejected configuration (weighted with an empty source)
+                Err(_) => return Err(format!("generator over sources of lengths {lengths:?} ({strategy}) does not terminate (no result within 5 s)")),
+            };
+            let total: usize = lengths.iter().sum();
+            if items.len() != total {
+                return Err(format!("lengths {lengths:?} ({strategy}): yielded {} items, expected {total}", items.len()));
+            }
+            let mut next = vec![0usize; lengths.len()];
+            let mut last_src: Option<usize> = None;
+            for (text, k) in &items {
+                let want = format!("s{k}i{}", next[*k]);
+                if !text.contains(&format!("\"{want}\"")) {
+                    return Err(format!("lengths {lengths:?} ({strategy}): source {k} yielded {text} where item {want} was due"));
+                }
+                next[*k] += 1;
+                if strategy == "sequential" {
+                    if let Some(l) = last_src { if *k < l { return Err(format!("sequential visits source {k} after {l}")); } }
+                }
+                if strategy == "interleaved" {
+                    // round robin over the sources that still have items: the next source after `l` (cyclically) with items left
+                    if let Some(l) = last_src {
+                        let n = lengths.len();
+                        let mut e = (l + 1) % n;
+                        // `next` already counts this item for k; a source "has items" if not exhausted before this step
+                        let has = |q: usize, next: &Vec<usize>| if q == *k { true } else { next[q] < lengths[q] };
+                        let mut guard = 0;
+                        while !has(e, &next) && guard < n { e = (e + 1) % n; guard += 1; }
+                        if e != *k { return Err(format!("lengths {lengths:?}: interleaved yields from source {k} after {l}, expected source {e}")); }
+                    }
+                }
+                last_src = Some(*k);
+            }
+            Ok(())
+        }
+
+        pub fn replay(input: &Value) -> Result<(), String> {
+            let lengths: Vec<usize> = input["lengths"].as_array().ok_or("lengths")?.iter().map(|x| x.as_u64().unwrap() as usize).collect();
+            check(lengths, input["strategy"].as_str().unwrap_or("interleaved"), input["seed"].as_u64().unwrap_or(1))
+        }
+
+        pub fn search() -> Option<(Value, String)> {
+            let configs: Vec<Vec<usize>> = vec![vec![1], vec![3], vec![1, 3], vec![3, 1], vec![2, 2], vec![0, 2], vec![2, 0, 1], vec![1, 2, 3], vec![3, 1, 2, 1]];
+            for strategy in ["sequential", "interleaved", "weighted"] {
+                for c in &configs {
+                    if let Err(e) = check(c.clone(), strategy, 7) {
+                        return Some((json!({"lengths": c, "strategy": strategy, "seed": 7}), e));
+                    }
+                }
+            }
+            None
+        }
+    }
+
     fn dispatch_replay(prop: &str, input: &Value) -> Result<(), String> {
         match prop {
             "C04" => c04::replay(input),
             "C12" => c12::replay(input),
+            "C07" => c07::replay(input),
             _ => Err(format!("no probe for {prop}")),
         }
     }
@@ -239,6 +329,7 @@ mod probes {
         match prop {
             "C04" => c04::search(),
             "C12" => c12::search(),
+            "C07" => c07::search(),
             _ => None,
         }
     }
